@@ -51,6 +51,26 @@ def add(ctx, res, tag):
                                               f'CacheToDisk("b") over the same folders, {o["order"]}: {r["field"]}({r["key"]!r}) gives '
                                               f'{json.dumps(r.get("value", r.get("exc")))[:100]}, without caches {json.dumps(r["reference"])[:100]}'})
                         break
+        for ei, ex in enumerate(json.load(open(out)).get('external', []) if tag in ('C05', 'C04') else []):
+            if 'error' in ex:
+                extra.append({'signature': 'harness-error', 'what': f'external scenario {ei}: {ex["error"]}', 'case': None})
+                continue
+            seen = {}
+            for r in ex['rows']:
+                k += 1
+                case = {'wrapped': 'External(object with methods image, mask, spacing and property ids, inputs=["i"])', 'cache': ex['kind'], 'cached_fields': ex['fields'],
+                        'requests_so_far': [[x['field'], x['key']] for x in ex['rows'][:ex['rows'].index(r) + 1]]}
+                if r.get('value') != r['reference']:
+                    extra.append({'signature': 'oracle:stale-entry-served-across-fields', 'case': case, 'observed': r.get('value', r.get('exc')), 'expected': r['reference'],
+                                  'what': f'{tag}: the methods of one object wrapped by External behind a {ex["kind"]} cache of {ex["fields"]}: {r["field"]}({r["key"]!r}) gives '
+                                          f'{r.get("value", r.get("exc"))!r}, without the cache {r["reference"]!r}'})
+                    break
+                d = r.get('digest')
+                if tag == 'C05' and d in seen and seen[d][0] != r['reference']:
+                    extra.append({'signature': 'oracle:node-hash-collision-across-fields', 'case': case, 'observed': {'digest': d, 'fields': [seen[d][1], r['field']]},
+                                  'what': f'{tag}: External: the fields {seen[d][1]} and {r["field"]} of one wrapped object have the same node hash for the id {r["key"]!r} and different values'})
+                    break
+                seen.setdefault(d, (r['reference'], r['field']))
     per, outv = {}, []
     for x in extra:
         per[x['signature']] = per.get(x['signature'], 0) + 1
